@@ -249,6 +249,7 @@ func g4SelfInPath(p *kit.Program, cx *c11Flood, r *kit.Report, rule string) {
 		// the loop check: elem(route.Path) == recv.<AgentID field>
 		var checkIf *ssa.If
 		var rejectSucc *ssa.BasicBlock
+		callForm := false
 		for _, b := range fn.Blocks {
 			if len(b.Instrs) == 0 {
 				continue
@@ -258,6 +259,22 @@ func g4SelfInPath(p *kit.Program, cx *c11Flood, r *kit.Report, rule string) {
 				continue
 			}
 			c, pol := c11Norm(ifi.Cond, true)
+			isOwnID := func(v ssa.Value) bool {
+				f, base := kit.LoadedField(v)
+				return f != nil && c12Deref(base) == ssa.Value(fn.Params[0]) && c11IsAgentID(cx, f.Type())
+			}
+			// membership form: slices.Contains(route.Path, t.localID) / a repository membership helper
+			if list, elem, isM := c11Membership(c); isM && isOwnID(elem) {
+				if f, base := kit.LoadedField(list); f != nil && f.Name() == "Path" && c12Deref(base) == ssa.Value(fn.Params[1]) {
+					checkIf, callForm = ifi, true
+					if pol {
+						rejectSucc = b.Succs[0]
+					} else {
+						rejectSucc = b.Succs[1]
+					}
+					continue
+				}
+			}
 			bo, ok := c.(*ssa.BinOp)
 			if !ok || (bo.Op != token.EQL && bo.Op != token.NEQ) {
 				continue
@@ -272,16 +289,16 @@ func g4SelfInPath(p *kit.Program, cx *c11Flood, r *kit.Report, rule string) {
 					return false
 				}
 				f, base := kit.LoadedField(ia.X)
-				return f != nil && f.Name() == "Path" && base == ssa.Value(fn.Params[1])
+				return f != nil && f.Name() == "Path" && c12Deref(base) == ssa.Value(fn.Params[1])
 			}
 			isOwn := func(v ssa.Value) bool {
 				f, base := kit.LoadedField(v)
-				return f != nil && base == ssa.Value(fn.Params[0]) && c11IsAgentID(cx, f.Type())
+				return f != nil && c12Deref(base) == ssa.Value(fn.Params[0]) && c11IsAgentID(cx, f.Type())
 			}
 			if !((isElem(bo.X) && isOwn(bo.Y)) || (isElem(bo.Y) && isOwn(bo.X))) {
 				continue
 			}
-			checkIf = ifi
+			checkIf, callForm = ifi, false
 			equalOnTrue := (bo.Op == token.EQL) == pol
 			if equalOnTrue {
 				rejectSucc = b.Succs[0]
@@ -290,7 +307,9 @@ func g4SelfInPath(p *kit.Program, cx *c11Flood, r *kit.Report, rule string) {
 			}
 		}
 		var header *ssa.BasicBlock
-		if checkIf != nil {
+		if checkIf != nil && callForm {
+			header = checkIf.Block() // the membership call scans the whole path before the branch
+		} else if checkIf != nil {
 			for d := checkIf.Block(); d != nil && header == nil; d = d.Idom() {
 				for _, pr := range d.Preds {
 					if d == pr || d.Dominates(pr) {
@@ -327,6 +346,13 @@ type g4Skip struct {
 	skipOn   bool      // truth value of cond on the skipping edge
 	skipSucc *ssa.BasicBlock
 	ord      int
+	wraps    bool // the continuing edge implies the dedup verdict (an admission helper wrapping the dedup)
+}
+
+// g4Cond is a condition a skipping edge depends on.
+type g4Cond struct {
+	v     ssa.Value
+	wraps bool // it implies the dedup verdict: reads of the handler's own seen cache are legitimate
 }
 
 // g4InMarkedRegion: block b executes only after the dedup recorded the announcement as new.
@@ -334,7 +360,7 @@ func g4InMarkedRegion(d *c11Dedup, b *ssa.BasicBlock) bool {
 	var want ssa.Value
 	wantPol := false
 	if d.call == nil {
-		want = d.ok
+		want, wantPol = d.ok, !d.okFound
 		if !(d.insert.Block() == b || d.insert.Block().Dominates(b)) {
 			return false
 		}
@@ -342,19 +368,16 @@ func g4InMarkedRegion(d *c11Dedup, b *ssa.BasicBlock) bool {
 			return true
 		}
 	} else {
-		want = d.call
+		want = d.res
 		wantPol = d.newVal
 	}
 	if want == nil {
 		return false
 	}
-	for _, g := range kit.Guards(b) {
-		c, pol := c11Norm(g.Cond, g.Polarity)
-		if c == want && pol == wantPol {
-			return true
-		}
+	if len(b.Instrs) == 0 {
+		return false
 	}
-	return false
+	return c11FactHolds(b.Instrs[0], want, wantPol)
 }
 
 // g4SkipBranches lists the skipping branches of entry point h after the mark (whole=false) or
@@ -389,7 +412,7 @@ func g4SkipBranches(cx *c11Flood, h *ssa.Function, d *c11Dedup, whole bool) []g4
 		if !ok || b.Succs[0] == b.Succs[1] {
 			continue
 		}
-		if c0, _ := c11Norm(ifi.Cond, true); c0 == d.ok || (d.call != nil && c0 == ssa.Value(d.call)) {
+		if c0, _ := c11Norm(ifi.Cond, true); c0 == d.ok || (d.res != nil && c0 == d.res) {
 			continue // the dedup test itself
 		}
 		r0, r1 := reachesFwd(b.Succs[0]), reachesFwd(b.Succs[1])
@@ -403,6 +426,7 @@ func g4SkipBranches(cx *c11Flood, h *ssa.Function, d *c11Dedup, whole bool) []g4
 		} else {
 			sk.skipSucc, sk.skipOn = b.Succs[1], !pol
 		}
+		sk.wraps = g4WrapsDedup(d, sk.cond, !sk.skipOn)
 		out = append(out, sk)
 	}
 	return out
@@ -411,17 +435,17 @@ func g4SkipBranches(cx *c11Flood, h *ssa.Function, d *c11Dedup, whole bool) []g4
 // g4SkipConds returns the conditions the skipping edge is control-dependent on inside the marked
 // region: the branch's own condition and the dominating guards established after the mark
 // (short-circuit chains, enclosing ifs), leaving out the self-in-seen-by test.
-func g4SkipConds(cx *c11Flood, h *ssa.Function, d *c11Dedup, sk g4Skip, whole bool) []ssa.Value {
-	out := []ssa.Value{sk.cond}
+func g4SkipConds(cx *c11Flood, h *ssa.Function, d *c11Dedup, sk g4Skip, whole bool) []g4Cond {
+	out := []g4Cond{{sk.cond, sk.wraps}}
 	for _, g := range kit.Guards(sk.ifi.Block()) {
 		if !whole && !g4InMarkedRegion(d, g.If.Block()) {
 			continue
 		}
-		c, _ := c11Norm(g.Cond, g.Polarity)
-		if g4IsSelfSeenTest(cx, h, c) || c == d.ok || (d.call != nil && c == ssa.Value(d.call)) {
+		c, pol := c11Norm(g.Cond, g.Polarity)
+		if g4IsSelfSeenTest(cx, h, c) || c == d.ok || (d.res != nil && c == d.res) {
 			continue
 		}
-		out = append(out, c)
+		out = append(out, g4Cond{c, g4WrapsDedup(d, c, pol)})
 	}
 	return out
 }
@@ -465,7 +489,7 @@ func g4UndoesMark(cx *c11Flood, sk g4Skip) bool {
 // g4IsSelfSeenTest: cond is the membership test of the local id in the received seen-by list.
 func g4IsSelfSeenTest(cx *c11Flood, h *ssa.Function, cond ssa.Value) bool {
 	list, elem, ok := c11Membership(cond)
-	return ok && c11LoadsField(elem, cx.localID) && c11RecvList(cx, list, h)
+	return ok && c11LoadsField(elem, cx.localID) && c11RecvListVia(cx, list, nil, h)
 }
 
 // g4Operands walks the expression tree of v (operands, call arguments and receivers, phi edges,
@@ -600,10 +624,10 @@ func g4MutableFlooderFields(cx *c11Flood) map[*types.Var]bool {
 
 // g4MutableStateDeps names the mutable Flooder fields the condition reads, directly or inside
 // the flood-package functions it calls (two levels).
-func g4MutableStateDeps(cx *c11Flood, mutable map[*types.Var]bool, cond ssa.Value) []string {
+func g4MutableStateDeps(cx *c11Flood, mutable map[*types.Var]bool, cond ssa.Value, ignore *types.Var) []string {
 	set := map[string]bool{}
 	note := func(v ssa.Value, via string) {
-		if f, _ := kit.LoadedField(v); f != nil && mutable[f] {
+		if f, _ := kit.LoadedField(v); f != nil && mutable[f] && f != ignore {
 			if via != "" {
 				set[f.Name()+" (read in "+via+")"] = true
 			} else {
@@ -640,4 +664,157 @@ func g4MutableStateDeps(cx *c11Flood, mutable map[*types.Var]bool, cond ssa.Valu
 	}
 	sort.Strings(out)
 	return out
+}
+
+// ---------------------------------------------------------------- facts implied by helper verdicts
+
+// c11Fact is a branch condition known to hold (with polarity pol) when control reaches some
+// instruction; chain leads from the function of that instruction down to the function cond lives in
+// (conditions established inside an admission helper whose verdict guards the instruction).
+type c11Fact struct {
+	cond  ssa.Value
+	pol   bool
+	chain []ssa.CallInstruction
+}
+
+// c11FactsAt returns the guards of `in` plus, for every guard that is the boolean verdict of a
+// flood-package helper, the conditions that hold on every path of the helper returning that
+// verdict (recursively, three calls deep): `if !f.admit(...) { return false }` establishes, for
+// the code after it, whatever admit() established before returning true.
+func c11FactsAt(in ssa.Instruction) []c11Fact {
+	return c11FactClosure(c11Guards(in))
+}
+
+// c11FactClosure closes a set of (normalised) conditions under "verdict of a helper implies what
+// the helper established".
+func c11FactClosure(start []kit.Guard) []c11Fact {
+	var out []c11Fact
+	seen := map[ssa.Value]bool{}
+	var add func(cond ssa.Value, pol bool, chain []ssa.CallInstruction, depth int)
+	add = func(cond ssa.Value, pol bool, chain []ssa.CallInstruction, depth int) {
+		if seen[cond] {
+			return
+		}
+		seen[cond] = true
+		out = append(out, c11Fact{cond, pol, chain})
+		if depth >= 3 {
+			return
+		}
+		var call *ssa.Call
+		idx := 0
+		switch x := cond.(type) {
+		case *ssa.Call:
+			call = x
+		case *ssa.Extract:
+			if c, ok := x.Tuple.(*ssa.Call); ok {
+				call, idx = c, x.Index
+			}
+		}
+		if call == nil {
+			return
+		}
+		cal := kit.CalleeOf(call)
+		if cal.Static == nil || cal.Static.Blocks == nil || kit.FuncPkgPath(cal.Static) != kit.PkgPath(c11FloodPkg) {
+			return
+		}
+		nchain := append(append([]ssa.CallInstruction{}, chain...), call)
+		for _, f := range c11Implied(cal.Static, idx, pol) {
+			add(f.Cond, f.Polarity, nchain, depth+1)
+		}
+	}
+	for _, g := range start {
+		add(g.Cond, g.Polarity, nil, 0)
+	}
+	return out
+}
+
+// g4WrapsDedup: the condition having truth value pol implies the dedup's "first sighting" verdict
+// (it is the dedup test itself or the verdict of an admission helper that contains it).
+func g4WrapsDedup(d *c11Dedup, cond ssa.Value, pol bool) bool {
+	for _, f := range c11FactClosure([]kit.Guard{{Cond: cond, Polarity: pol}}) {
+		if d.res != nil && f.cond == d.res && f.pol == d.newVal {
+			return true
+		}
+		if d.call == nil && d.ok != nil && f.cond == d.ok && f.pol == !d.okFound {
+			return true
+		}
+	}
+	return false
+}
+
+// c11Implied: the (normalised) conditions that hold at every return of fn that can yield value v
+// for result idx.
+func c11Implied(fn *ssa.Function, idx int, v bool) []kit.Guard {
+	type key struct {
+		c   ssa.Value
+		pol bool
+	}
+	var common map[key]bool
+	n := 0
+	for _, ret := range kit.Returns(fn) {
+		if ret.Block() == fn.Recover || len(ret.Results) <= idx {
+			continue
+		}
+		rv := kit.ReturnResult(ret, idx)
+		here := map[key]bool{}
+		if b, isC := kit.ConstBool(rv); isC {
+			if b != v {
+				continue
+			}
+		} else {
+			c, pol := c11Norm(rv, true)
+			if _, isPhi := c.(*ssa.Phi); !isPhi {
+				here[key{c, v == pol}] = true // returning v means c has this truth value
+			}
+		}
+		for _, g := range c11Guards(ret) {
+			here[key{g.Cond, g.Polarity}] = true
+		}
+		n++
+		if common == nil {
+			common = here
+			continue
+		}
+		for k := range common {
+			if !here[k] {
+				delete(common, k)
+			}
+		}
+	}
+	var out []kit.Guard
+	if n == 0 {
+		return nil
+	}
+	for k := range common {
+		out = append(out, kit.Guard{Cond: k.c, Polarity: k.pol})
+	}
+	return out
+}
+
+// c11FactHolds: control reaches `in` only when val has truth value want (directly or through the
+// verdict of an admission helper).
+func c11FactHolds(in ssa.Instruction, val ssa.Value, want bool) bool {
+	for _, f := range c11FactsAt(in) {
+		if f.cond == val && f.pol == want {
+			return true
+		}
+	}
+	return false
+}
+
+// c11RecvListVia: v (a value of the function at the end of chain) denotes the seen-by list
+// received by handler h.
+func c11RecvListVia(cx *c11Flood, v ssa.Value, chain []ssa.CallInstruction, h *ssa.Function) bool {
+	if !c11IsAgentList(cx, v.Type()) {
+		return false
+	}
+	d := c11Desc(v, chain)
+	rest := strings.TrimPrefix(d, kit.FuncName(h)+"#")
+	if rest == d || strings.Contains(rest, "@") {
+		return false
+	}
+	if i := strings.Index(rest, "."); i >= 0 {
+		return rest[i+1:] == "SeenBy"
+	}
+	return true
 }
